@@ -371,11 +371,13 @@ impl Msg {
     }
 }
 
-#[derive(Clone, Debug, PartialEq, Eq)]
+#[derive(Clone, Debug)]
 pub struct Reply {
     pub from: usize,
     pub id: u32,
     pub val: i64,
+    /// Every reply (and every clone of it) must be dropped exactly once, read or not.
+    pub tok: Tracked,
 }
 
 pub fn reply_val(node: usize, val: i64) -> i64 {
@@ -433,6 +435,9 @@ pub enum Op {
     Block(u64),
     /// Extra yield point.
     Yield,
+    /// Builds, runs and drops another (inner) simulation with this many models from inside
+    /// the handler (co-simulation), on the same kind of executor as the enclosing one.
+    Nested(usize),
     /// Connect output port `port` of this node (through the node's own port
     /// object, possibly a clone shared with another node) to `target`.
     Connect { port: usize, target: usize },
@@ -789,6 +794,7 @@ impl Node {
             from: self.idx,
             id,
             val: reply_val(self.idx, val),
+            tok: Tracked::new(&self.w),
         }
     }
     async fn handle(&mut self, msg: Msg, cx: &mut Context<Self>, q: bool) {
@@ -931,6 +937,9 @@ impl Node {
                     std::thread::sleep(Duration::from_millis(ms))
                 }
                 Op::Yield => {}
+                Op::Nested(k) => {
+                    run_nested(&w, k, self.spec.threads);
+                }
                 Op::Connect { port, target } => {
                     let a = self.addrs[target].clone();
                     late_connect(&mut self.outs[port], a);
@@ -938,6 +947,49 @@ impl Node {
                 }
             }
         }
+    }
+}
+
+/// Model of the inner simulations run by `Op::Nested`.
+pub struct Inner {
+    w: Arc<W>,
+    _tok: Tracked,
+}
+impl Inner {
+    pub async fn ping(&mut self, msg: Msg) {
+        self.w.log(Ev::Note(format!("inner ping {}", msg.val)));
+        drop(msg);
+    }
+}
+impl Model for Inner {}
+
+fn run_nested(w: &Arc<W>, k: usize, threads: usize) {
+    // The inner simulation runs under its default schedule: the harness hooks of the
+    // enclosing execution (pick order, yields) are suspended meanwhile.
+    let controlled = w.controlled;
+    if controlled {
+        remove_hooks();
+    }
+    w.log(Ev::Note(format!("nested simulation with {} models: start", k)));
+    let mut init = SimInit::with_num_threads(threads);
+    let mut addrs = vec![];
+    for j in 0..k {
+        let mb: Mailbox<Inner> = Mailbox::new();
+        addrs.push(mb.address());
+        init = init.add_model(Inner { w: w.clone(), _tok: Tracked::new(w) }, mb, format!("inner{}", j));
+    }
+    let r = init.init(mt(0));
+    if let Ok((mut simu, _sched)) = r {
+        for (j, a) in addrs.iter().enumerate() {
+            let id = w.fresh_id();
+            let _ = simu.process_event(Inner::ping, Msg::new(w, id, 1, j as i64), a);
+        }
+        drop(simu);
+    }
+    drop(addrs);
+    w.log(Ev::Note("nested simulation: dropped".into()));
+    if controlled {
+        install_hooks(w);
     }
 }
 
@@ -1072,6 +1124,8 @@ pub struct Built {
     pub init_res: Res,
     pub flavours: Vec<Flavour>,
     pub out_clones: Vec<Vec<Output<Msg>>>,
+    /// Reply receivers of scheduled query actions, kept unread.
+    pub rxs: Vec<nexosim::ports::ReplyReceiver<Reply>>,
 }
 
 fn conv_err(e: ExecutionError) -> E {
@@ -1547,6 +1601,7 @@ pub fn build(spec: &Arc<BenchSpec>, w: &Arc<W>) -> Built {
         init_res: res,
         flavours: spec.nodes.iter().map(|n| n.flavour).collect(),
         out_clones,
+        rxs: vec![],
     }
 }
 
@@ -1578,6 +1633,11 @@ pub enum Cmd {
     ProcSrc { src: usize, tag: u16, val: i64 },
     /// Simulation::process(qsource.query(..)), then take the replies.
     ProcQSrc { src: usize, tag: u16, val: i64 },
+    /// Like `ProcQSrc`, but the reply receiver is dropped without being read.
+    ProcQSrcDrop { src: usize, tag: u16, val: i64 },
+    /// Schedules a query action of a query source; the reply receiver is dropped at
+    /// once (`keep == false`) or kept unread until the end of the scenario.
+    SchedQSrc { src: usize, when: When, tag: u16, val: i64, keep: bool },
     Cancel { slot: usize },
     CancelClone { slot: usize },
     /// Convert the key in `slot` into an AutoActionKey (kept alive).
@@ -1602,6 +1662,7 @@ impl Cmd {
                 | Cmd::ProcQuery { .. }
                 | Cmd::ProcSrc { .. }
                 | Cmd::ProcQSrc { .. }
+                | Cmd::ProcQSrcDrop { .. }
         )
     }
 }
@@ -1820,6 +1881,31 @@ fn exec_cmd_inner(b: &mut Built, cmd: &Cmd) -> Res {
                 Err(e) => Res::Err(conv_err(e)),
             }
         }
+        Cmd::ProcQSrcDrop { src, tag, val } => {
+            let id = w.fresh_id();
+            let (action, rx) = b.qsrcs[*src].query(Msg::new(&w, id, *tag, *val));
+            let r = simu.process(action);
+            drop(rx);
+            to_res(r)
+        }
+        Cmd::SchedQSrc { src, when, tag, val, keep } => {
+            let id = w.fresh_id();
+            let (action, rx) = b.qsrcs[*src].query(Msg::new(&w, id, *tag, *val));
+            let res = match *when {
+                When::Rel(d) => sched.schedule(Duration::from_nanos(d), action),
+                When::Abs(a) => sched.schedule(mt(a), action),
+            }
+            .map_err(se);
+            if *keep {
+                b.rxs.push(rx);
+            } else {
+                drop(rx);
+            }
+            match res {
+                Ok(()) => Res::SchedOk,
+                Err(e) => Res::SchedErr(e),
+            }
+        }
         _ => unreachable!(),
     }
 }
@@ -1895,7 +1981,8 @@ pub fn run_once(sc: &Scenario, prefix: &[u16], controlled: bool) -> RunOut {
     drop(w.take_parked());
     w.clear_keys();
     w.set_sched(None);
-    let Built { sched, addrs, bufs: bb, slots: ss, srcs, qsrcs, orphans, out_clones, .. } = b;
+    let Built { sched, addrs, bufs: bb, slots: ss, srcs, qsrcs, orphans, out_clones, rxs, .. } = b;
+    drop(rxs);
     drop(out_clones);
     drop(sched);
     drop(srcs);
